@@ -142,6 +142,33 @@ def write_bounded(pid, r1):
     return path
 
 
+def run_oracle(pid, script, doubtful):
+    """native property-level oracle (small concrete systems through the public API) as replay of last resort"""
+    d = os.path.join(VERIF, "replays", pid)
+    os.makedirs(d, exist_ok=True)
+    src = os.path.join(VERIF, script)
+    path = os.path.join(d, "oracle_" + os.path.basename(script))
+    with open(src) as f:
+        body = f.read()
+    head = "# replay for property %s (native property-level oracle, last resort)\n" % pid
+    for ob in doubtful[:12]:
+        head += "# obligation without a native failing input of its own: %s [%s] %s\n" % (
+            ob.name, ob.verdict, str(getattr(ob, "reason", "") or "")[:160].replace("\n", " "))
+    with open(path, "w") as f:
+        f.write(head + body)
+    try:
+        p = subprocess.run([PY, "-W", "ignore", path], capture_output=True, text=True, timeout=900, env=native_env(), cwd=d)
+        out = (p.stdout or "") + (p.stderr or "")
+        reproduced = p.returncode == 1 and "VIOLATED" in out
+    except subprocess.TimeoutExpired:
+        out, reproduced = "oracle timed out", False
+    with open(path, "a") as f:
+        f.write("\n# --- native run output (%s) ---\n" % ("REPRODUCED" if reproduced else "not reproduced"))
+        for ln in out.strip().splitlines()[-30:]:
+            f.write("# " + ln + "\n")
+    return path, reproduced, out
+
+
 def run_file(path):
     p = subprocess.run([PY, "-W", "ignore", path], env=native_env(), cwd=os.path.dirname(os.path.abspath(path)))
     return p.returncode
